@@ -487,6 +487,8 @@ async fn fn_independent_pre(
         debug!("Using preprocessing without trusted dealer, generating delta and random shares");
         random_shares = FileOrMemBuf::new(ctx.tmp_dir, secret_bits)?;
         delta = Delta(random());
+        #[cfg(feature = "__verif")]
+        crate::verif::probe("delta", &delta.0.to_le_bytes());
         shared_two_by_two = Some(shared_rng_pairwise(channel, p_own, p_max).await?);
         multi_shared_rand = Some(shared_rng(channel, p_own, p_max).await?);
         for chunk_size in chunk_size_iter(secret_bits, ctx.random_shares_batch_size()) {
@@ -674,6 +676,8 @@ async fn garble(
                         .next()
                         .ok_or(MpcError::MissingAndShareForInst(w))??;
                     let r = r_sig ^ r_gamma;
+                    #[cfg(feature = "__verif")]
+                    let r = crate::verif::tap_bool("garble_row_share", w, r);
                     let mac_r_key_s_0 = &mac_r_sig_key_s_sig ^ &mac_r_gamma_key_s_gamma;
                     let mac_r_key_s_1 = &mac_r_key_s_0 ^ &mac_r_x_key_s_x;
                     let row0 = Share(r, mac_r_key_s_0.clone());
@@ -830,6 +834,11 @@ async fn input_processing(
         .iter()?
         .take(num_inputs)
         .collect::<Result<_, _>>()?;
+    #[cfg(feature = "__verif")]
+    crate::verif::probe(
+        "input_mask_bits",
+        &random_input_shares.iter().map(|s: &Share| s.0 as u8).collect::<Vec<u8>>(),
+    );
     let mut wire_shares_for_others = vec![vec![None; circ.max_reg_count]; p_max];
     for (w, inst) in circ.insts.iter().enumerate() {
         if let Op::Input(input @ Input { party, .. }) = inst.op {
@@ -987,6 +996,8 @@ fn evaluate(
                     let input_y = values[y];
                     let label_y = &labels_eval[y];
                     let i = 2 * (input_x as usize) + (input_y as usize);
+                    #[cfg(feature = "__verif")]
+                    crate::verif::probe("eval_row", &[(w as u64).to_le_bytes(), (i as u64).to_le_bytes()].concat());
                     let table_shares = table_shares
                         .next()
                         .ok_or(MpcError::MissingTableShareForInst(w))??;
